@@ -83,6 +83,14 @@ TARGETS = [
 ]
 
 
+# combinations that are always part of the family (not left to sampling): an inline fragment together with a named spread on a
+# different implementing type, a spread on the position's own type together with one on a subtype, nested spreads + plain fields
+MUST_NODE = [("id", "... on Bot { model }", "...UserF"), ("... on User { name age }", "...BotF"), ("... on Dog { barks }", "...UserF", "...BotF"),
+             ("...NodeF", "...UserF"), ("...NodeF", "... on Bot { model }"), ("...NamedF", "...BotF", "id"), ("...NodeInl2F", "...BotF")]
+MUST_THING = [("... on Bot { model }", "...UserF"), ("... on User { name age }", "...DogF"), ("...ThingUF", "...DogF"), ("... on Named { name }", "...DogF")]
+MUST_USER = [("...UserF", "...NodeF", "id"), ("...UserDeepF", "pet { barks }"), ("...NestF", "...NamedF"), ("related { ... on Bot { model } }", "related { id }")]
+
+
 def with_directive(item: str, d: str) -> str:
     """attach a directive to a field / inline fragment / spread"""
     if not d:
@@ -145,6 +153,14 @@ def abstract_family(max_items: int, per_target: int, seed: int, directives: bool
         # always keep all singletons and pairs when they fit, sample the rest
         combos.sort(key=len)
         taken = 0
+        must = MUST_NODE if items is ITEMS_NODE else (MUST_THING if items is ITEMS_THING else MUST_USER)
+        for mi, combo in enumerate(must):
+            if tname in ("matrix", "nodesOpt", "users") and mi % 2:
+                continue  # list targets take every other mandatory combination
+            text = make_operation(f"Op{n}", ftext, list(combo))
+            if valid_against(schema, text + "\n" + all_frags):
+                ops.append((f"Op{n}", text))
+                n += 1
         for combo in combos:
             if taken >= per_target:
                 break
@@ -249,6 +265,7 @@ FRAG_OPS = [
     "node { ...UA }", "user { ...NA }", "named { ...MA ...NA }", "things { ...TA }", "user { ...UI }", "node { ...BA }", "user { ...UF }",
     "user { ...Aaa }", "user { bestFriend { ...UA } friends { ...UB } }", "user { id ...UA name }", "nodes { ...NA ... on User { ...UA } }",
     "me { ...ZU ...UA }", "thing { ... on User { ...UE } }", "user { ...UA @include(if: true) }", "user { ...AF }", "me { ...AG }", "users { ...AF ...AG }",
+    "node { id ... on Bot { model } ...UE }", "nodesOpt { ... on Dog { barks } ...UB }", "thing { ... on Bot { model } ...UC }", "named { ... on Bot { model } ...UE ...MA }",
 ]
 
 
@@ -292,8 +309,57 @@ def inputs_schema(depth: int) -> str:
         "enum Color { RED GREEN in }\nscalar Blob\n"
         "input Leaf { a: Int!, b: String, c: Color }\n"
         "input Rec { v: Int, next: Rec, many: [Rec!], leaf: Leaf! }\n"
-        "input Names { camelCase: Int, in: String, _under: Int, copy: Boolean, json: Int!, model_config: String, __dunder: Int, Upper: Int, x1y: Int, class: Color }\n"
+        "input Names { camelCase: Int, in: String, _under: Int, copy: Boolean, json: Int!, model_config: String, Upper: Int, x1y: Int, class: Color, _req: ID!, _lead_list: [Int!]! }\n"
         "input Defs { i: Int = 3, ni: Int! = 4, s: String = \"x\", b: Boolean = true, f: Float = 1.5, e: Color = GREEN, ne: Color! = RED, l: [Int!] = [1, 2], n: Int = null,\n"
         "  o: Leaf = {a: 1}, req: Int!, lo: [Int] = [1, null] }\n"
         + "\n".join(lines) + "\n"
     )
+
+
+# ---------------------------------------------------------------------------------------------------
+# M: roots other than Query, configured custom scalars, three levels of abstract nesting, enum lists
+S_MISC = """
+schema { query: RootQ mutation: RootM subscription: RootS }
+type RootQ { feed(first: Int): [Entry!]! entry(id: ID!): Entry search: [Hit] }
+type RootM { publish(id: ID!): Entry! remove(id: ID!): Outcome }
+type RootS { changes: Entry! pulses: [Int!] }
+interface Entry { id: ID! at: Stamp tags: [Tag!] }
+type Post implements Entry { id: ID! at: Stamp tags: [Tag!] title: String! author: Author! related: [Entry] }
+type Note implements Entry { id: ID! at: Stamp tags: [Tag!] text: String pinnedBy: Author }
+union Hit = Post | Note | Author
+type Author { handle: String! posts: [Post!]! last: Entry stamps: [Stamp]! matrix: [[Tag]] }
+union Outcome = Removed | Refused
+type Removed { id: ID! }
+type Refused { reason: String! code: Int }
+enum Tag { A B }
+scalar Stamp
+"""
+OPS_MISC = """
+query Feed($n: Int) { feed(first: $n) { id at tags ... on Post { title author { handle last { id ... on Note { text pinnedBy { handle } } } } } ... on Note { text } } }
+query GetEntry($id: ID!) { entry(id: $id) { __typename id ... on Post { related { id ... on Post { author { stamps matrix } } } } } }
+query Search { search { ... on Author { handle posts { title tags } } ... on Entry { id } ... on Note { pinnedBy { last { id } } } } }
+mutation Publish($id: ID!) { publish(id: $id) { id at ...EntryF } }
+mutation Remove($id: ID!) { remove(id: $id) { ... on Removed { id } ... on Refused { reason code } } }
+subscription Changes { changes { id ... on Post { title } } }
+subscription Pulses { pulses }
+fragment EntryF on Entry { tags ... on Note { text } }
+"""
+
+
+OPS_MISC_SCALAR = """
+query PostAt { feed { ...EntryAt } }
+query Authors { search { ... on Author { ...AuthorStamps } ... on Post { author { ...AuthorStamps } } } }
+query Direct { entry(id: "1") { at ... on Post { author { stamps } } } }
+fragment EntryAt on Entry { at id }
+fragment AuthorStamps on Author { stamps handle }
+"""
+
+
+def misc_jobs() -> List[dict]:
+    out = []
+    for snake in (True, False):
+        out.append({"schema": S_MISC, "queries": OPS_MISC, "config": {"convert_to_snake_case": snake}, "ops": None})
+    # a configured custom scalar reached directly and through base-class fragments: only its declared Python type is judged
+    # (what a server may send for a custom scalar is not defined by the schema), hence this job is used by C05 only
+    out.append({"schema": S_MISC, "queries": OPS_MISC_SCALAR, "config": {"scalars": {"Stamp": {"type": "str"}}}, "ops": None, "only_for": "C05", "modes_override": ["image"]})
+    return out
